@@ -7,7 +7,7 @@ From Coq Require Import ZifyBool.
 (* a label that the look-ahead acceptance may skip the suitability test for must be a plain
    modification domain: then no assertion of add_component can be reached for it *)
 Definition plain_mod_label (l : Z) : bool :=
-  let c := mkComp l 0 0 0 in
+  let c := mkComp l [] 0 0 in
   c_mod c && negb (c_ignored c) && negb (c_starter c) && negb (c_loader c) && c_classified c.
 
 Lemma table_double_cases_plain :
@@ -16,7 +16,7 @@ Proof. vm_compute. reflexivity. Qed.
 
 (* every loader is a starter (ADENYLATIONS, ACYLTRANSFERASES, CAL_domain are all starter classes) *)
 Lemma table_loader_is_starter :
-  forallb (fun l => let c := mkComp l 0 0 0 in implb (c_loader c) (c_starter c))
+  forallb (fun l => let c := mkComp l [] 0 0 in implb (c_loader c) (c_starter c))
           (map Z.of_nat (seq 0 (length c14_labels))) = true.
 Proof. vm_compute. reflexivity. Qed.
 
@@ -43,8 +43,27 @@ Arguments double_len : simpl never.
 
 (* the class predicates only look at the label *)
 Lemma pred_label_only (f : comp -> bool) :
-  (forall c, f c = f (mkComp (lab c) 0 0 0)) -> forall c d, lab c = lab d -> f c = f d.
+  (forall c, f c = f (mkComp (lab c) [] 0 0)) -> forall c d, lab c = lab d -> f c = f d.
 Proof. intros H c d E. rewrite (H c), (H d), E. reflexivity. Qed.
+
+(* ---------- subtypes: detailed_names against the hits themselves ---------- *)
+Arguments subtype_is : simpl never.
+(* Component.subtype (through HMMResult.detailed_names) is the name of the ONLY first-level subtype hit *)
+Lemma subtype_spec c : subtype c = spec_subtype c.
+Proof.
+  unfold subtype, subtypes, spec_subtype, detailed_tail.
+  destruct (sub c) as [|[i hs] [|y r]]; reflexivity.
+Qed.
+Lemma subtype_is_tat c : subtype_is c S_Trans_AT_KS = c_tat c.
+Proof.
+  unfold subtype_is, c_tat. rewrite subtype_spec. unfold spec_subtype.
+  destruct (sub c) as [|[i hs] [|y r]]; reflexivity.
+Qed.
+Lemma subtype_is_iter c : subtype_is c S_Iterative_KS = c_iter c.
+Proof.
+  unfold subtype_is, c_iter. rewrite subtype_spec. unfold spec_subtype.
+  destruct (sub c) as [|[i hs] [|y r]]; reflexivity.
+Qed.
 
 (* ---------- components list after add_component ---------- *)
 Lemma add_comps m c la m' :
@@ -122,11 +141,11 @@ Lemma plain_comp c : plain_mod_label (lab c) = true ->
   c_mod c = true /\ c_ignored c = false /\ c_starter c = false /\ c_loader c = false /\ c_classified c = true.
 Proof.
   unfold plain_mod_label. cbn zeta.
-  replace (c_mod (mkComp (lab c) 0 0 0)) with (c_mod c) by reflexivity.
-  replace (c_ignored (mkComp (lab c) 0 0 0)) with (c_ignored c) by reflexivity.
-  replace (c_starter (mkComp (lab c) 0 0 0)) with (c_starter c) by reflexivity.
-  replace (c_loader (mkComp (lab c) 0 0 0)) with (c_loader c) by reflexivity.
-  replace (c_classified (mkComp (lab c) 0 0 0)) with (c_classified c) by reflexivity.
+  replace (c_mod (mkComp (lab c) [] 0 0)) with (c_mod c) by reflexivity.
+  replace (c_ignored (mkComp (lab c) [] 0 0)) with (c_ignored c) by reflexivity.
+  replace (c_starter (mkComp (lab c) [] 0 0)) with (c_starter c) by reflexivity.
+  replace (c_loader (mkComp (lab c) [] 0 0)) with (c_loader c) by reflexivity.
+  replace (c_classified (mkComp (lab c) [] 0 0)) with (c_classified c) by reflexivity.
   destruct (c_mod c), (c_ignored c), (c_starter c), (c_loader c), (c_classified c); cbn; intros H;
     try discriminate; auto.
 Qed.
@@ -239,8 +258,8 @@ Proof.
         (* a loader is always a starter: contradiction with the table *)
         exfalso.
         pose proof table_loader_is_starter as T. rewrite forallb_forall in T.
-        assert (Hcl : c_loader (mkComp (lab c) 0 0 0) = true) by exact Bl.
-        assert (Hcs : c_starter (mkComp (lab c) 0 0 0) = false) by exact Hkeep.
+        assert (Hcl : c_loader (mkComp (lab c) [] 0 0) = true) by exact Bl.
+        assert (Hcs : c_starter (mkComp (lab c) [] 0 0) = false) by exact Hkeep.
         (* the label is in range because it is a loader label *)
         assert (Hin : In (lab c) (map Z.of_nat (seq 0 (length c14_labels)))).
         { unfold c_loader, c_acyltransferase, c_adenylation, c_coa_ligase in Hcl. cbn [lab] in Hcl.
@@ -307,16 +326,16 @@ Proof.
     + (* suitable: the assertions hold *)
       assert (Hsp : c_special c = true -> c_starter c = false /\ c_loader c = false /\ c_end c = false).
       { intros Hspecial.
-        assert (Hdisj : forallb (fun l => let d := mkComp l 0 0 0 in
+        assert (Hdisj : forallb (fun l => let d := mkComp l [] 0 0 in
                           negb (c_starter d) && negb (c_loader d) && negb (c_end d)) c14_special = true)
           by (vm_compute; reflexivity).
         rewrite forallb_forall in Hdisj.
         unfold c_special, zmem in Hspecial. apply existsb_exists in Hspecial.
         destruct Hspecial as [x [Hx Ex]]. apply Z.eqb_eq in Ex. subst x.
         specialize (Hdisj _ Hx). cbn zeta in Hdisj.
-        replace (c_starter (mkComp (lab c) 0 0 0)) with (c_starter c) in Hdisj by reflexivity.
-        replace (c_loader (mkComp (lab c) 0 0 0)) with (c_loader c) in Hdisj by reflexivity.
-        replace (c_end (mkComp (lab c) 0 0 0)) with (c_end c) in Hdisj by reflexivity.
+        replace (c_starter (mkComp (lab c) [] 0 0)) with (c_starter c) in Hdisj by reflexivity.
+        replace (c_loader (mkComp (lab c) [] 0 0)) with (c_loader c) in Hdisj by reflexivity.
+        replace (c_end (mkComp (lab c) [] 0 0)) with (c_end c) in Hdisj by reflexivity.
         destruct (c_starter c), (c_loader c), (c_end c); cbn in Hdisj; try discriminate. auto. }
       assert (Hlo : isSome (m_loader m) = true -> isSome (m_starter m) = true).
       { destruct (m_starter m); [reflexivity|]. rewrite (I1 eq_refl). intros; discriminate. }
